@@ -100,8 +100,10 @@ def gen_cases(tier, seed):
         base['config']['max_request_concurrency'] = rng.choice([1, 1, 2])
         base['config']['max_request_queue_size'] = rng.choice([2, 5, 1000])
         base['config']['max_submission_queue_size'] = 1000
-        base['mode'] = rng.choice(['shutdown_cancel', 'with_exc', 'with_kbi'])
+        # (incl. a real Ctrl-C - SIGINT - arriving while shutdown() / the with-exit is already waiting for the transfers)
+        base['mode'] = rng.choice(['shutdown_cancel', 'with_exc', 'with_kbi', 'kbi_shutdown', 'kbi_exit'])
         base['trigger'] = 'immediate'
+        base['kbi_only_in_wait'] = True  # a Ctrl-C landing in the joins that follow the wait aborts them by nature: not the barrier's business
         base['cancel_msg'] = 'bye'
         base['plan'] = {'gate': {'match': rng.choice(['/s3:', '/cb:on_queued', '/cb:on_done', '.read#']), 'phase': 'before', 'policy': 'seeded',
                                  'after_cancel_begin': rng.random() < 0.7}}
@@ -168,6 +170,11 @@ def barrier_violations(obs):
     out = []
     se = [e for e in obs.events if e['kind'] == 'shutdown.end']
     if not se:
+        return out, 0
+    kbi = getattr(obs, 'kbi', None)
+    if kbi is not None and kbi.get('kbi') and kbi.get('where') != 'wait':
+        # the Ctrl-C reached the main thread after the wait for the transfers, in the joins of the executors: it aborts them by
+        # nature, so nothing is demanded of what follows
         return out, 0
     n0 = se[0]['n']
     late = [e for e in obs.events if e['n'] > n0 and (e['kind'] in ('api.begin', 's3.begin', 'dst.write', 'fs.write', 'fs.rename', 'fs.remove')
